@@ -12,8 +12,8 @@ for g in gen/gen_*.py; do
     gen/gen_doc_limits.py) python3 "$g" /repo coq/DocLimits.v ;;
   esac
 done
+./lib/mkcoqproject.sh
 cd coq
-coq_makefile -f _CoqProject -o Makefile >/dev/null
 timeout 3000 make -j16 >/dev/null
 cd ../harness
 cp /repo/go.sum go.sum
